@@ -6,6 +6,7 @@ import Complgen.Proofs.Subset
 import Complgen.Proofs.RxOfExpr
 import Complgen.Proofs.Passes
 import Complgen.Proofs.Choice
+import Complgen.Proofs.Meaning
 namespace Complgen.Props.C02
 open Complgen
 
@@ -85,5 +86,42 @@ example :
     let symOf : Nat → Option Inp := fun p => if p = 0 then some (.lit "a" none 0) else if p = 1 then some (.lit "b" none 0) else none
     (buildAuto fifo (Regex.ofExpr e []).1 symOf).isSome = true ∧ e.leafCount = 2 := by
   decide
+
+/-! ### validation as a whole
+
+The passes composed, with the one that has no counterpart function in the specification — the
+expansion of definitions in dependency order, found by a depth-first traversal — proved to compute
+the specification's fixpoint expansion. -/
+
+/-- **What validation returns is the grammar's meaning**, for every grammar and target shell the
+model of check.rs accepts: call variants joined, descriptions distributed, every reference replaced
+by the definition `Spec.pick` chooses and expanded to the end (whatever order the traversal finds),
+juxtapositions flattened into words, `||` levels attached.  `topSpan g` is the source position the
+code records at the node joining several call variants. -/
+theorem validation_is_meaning (g : Grammar) (sh : Shell) (v : Check.Valid) (h : Check.validate g sh = .ok v) :
+    v.expr = Spec.meaningAt (Check.topSpan g) g sh :=
+  Check.validate_expr_eq_meaning g sh v h
+
+/-- that position is the only thing by which `Spec.meaningAt` differs from `Spec.meaning` -/
+theorem meaning_root_span (g : Grammar) (sh : Shell) :
+    (∀ sp, Spec.meaningAt sp g sh = Spec.meaning g sh) ∨ (∃ X, ∀ sp, Spec.meaningAt sp g sh = .alt X sp) :=
+  Check.meaningAt_cases g sh
+
+/-- a successful traversal lists every definition once, after everything it refers to -/
+theorem resolution_order_topological (D : Check.AList (Span × Expr)) (order : List String)
+    (h : Check.resolutionOrder D = .ok order) :
+    ∃ R : List String, order = R.filter (fun v => !(((Check.depGraph D).get? v).getD []).isEmpty) ∧ R.Nodup ∧
+      Check.Closed (Check.depGraph D) R ∧ ∀ v ∈ Check.verts (Check.depGraph D), v ∈ R :=
+  Check.resolutionOrder_ok D order h
+
+/-- the fuel the specification's expansion is given always suffices (a definition is entered at most
+once along a path when the traversal succeeds) -/
+theorem expansion_as_specified (sh : Shell) (g : Grammar) (order : List String)
+    (hnodup : ((Check.plainDefs g).map (·.1)).Nodup) (hro : Check.resolutionOrder (Check.tableOf sh g) = .ok order)
+    (e : Expr) (hd : Check.NoDD e = true) (u u' : Check.AList Span) (k : Nat)
+    (hk : Check.depth e + ((Check.plainDefs g).map fun x => 2 * Spec.size x.2.2).sum ≤ k) :
+    Spec.expand sh g k e =
+      (Check.resolve (order.foldl Check.resStep (Check.tableOf sh g, u)).1 (Check.applyPick sh g e) u').1 :=
+  Check.expansion_correct sh g order hnodup hro e hd u u' k hk
 
 end Complgen.Props.C02
